@@ -112,6 +112,8 @@ def coq_ty(ct):
         return '(Z * Z)'
     if ct[0] == 'fnpred':   # C12: index_pred functor
         return '(Z -> bool)'
+    if ct[0] == 'abs':      # C12: abstract ghost field type
+        return ct[1]
     raise TranslationError('coq_ty: unsupported type %r' % (ct,))
 
 COQ_RESERVED = {'mod', 'in', 'end', 'at', 'as', 'fun', 'fix', 'using', 'where', 'with', 'return', 'Type', 'Set', 'Prop'}
@@ -158,6 +160,22 @@ class Ctx:
         self.static_tables = {}                      # local static const arrays: name -> list
         self.accessors = {}                          # reference-returning accessors: name -> (field, index node, params)
         self.ptr_accessors = {}                      # pointer-returning accessors `return field;`: name -> field (checked)
+
+class ExternFn:
+    """C12 ("extern_calls": {"Remove": {"coq": "w_remove", "object": true, "args": [0, 1], "reads": ["world"], "writes": ["world"]}}):
+    a callee that is NOT translated here but modelled by a Section variable of outcome type that reads / writes configured (ghost)
+    fields: `x = obj.Remove(a, b, c)` becomes `match w_remove world obj a b with Ok (x, world) => .. | Stuck => Stuck ..`.
+    "args" selects the call arguments that are passed (functor arguments are left out)."""
+    def __init__(self, ctx, name, cfg):
+        self.ctx = ctx; self.name = name; self.out = cfg['coq']; self.cfg = cfg
+        self.nonsimple = True; self.is_static = False; self.functors = {}; self.skipp = set(); self.d = {'inner': []}
+        self.fieldnames = list(cfg.get('reads', cfg.get('writes', [])))
+        self.writes_fields = set(cfg.get('writes', []))
+    def field_args_for(self, caller):
+        return list(self.fieldnames)
+    def out_fields(self):
+        return [f for f in self.cfg.get('writes', [])]
+
 
 class Fn:
     def __init__(self, ctx, decl, outname=None):
@@ -256,6 +274,8 @@ class Fn:
         for f, k in ctx.fields.items():
             if not self.is_static:
                 self.env[f] = ('arr', ('u', 8), 0) if k == 'array' else (('bool',) if k == 'bool' else ('u', 64))
+                if isinstance(k, str) and k.startswith('abstract:'):   # C12: ghost field of an abstract (Section variable) type, e.g. "world": "abstract:W"
+                    self.env[f] = ('abs', k.split(':', 1)[1])
 
     def ret_override(self):
         r = self.ctx.cfg.get('ret_types', {}).get(self.d['name'])
@@ -285,6 +305,21 @@ class Fn:
                 if nm in ('move', 'forward'):
                     n = skip_wrappers(n['inner'][1]); continue
                 return None
+            if k == 'CXXMemberCallExpr' and len(n.get('inner', [])) == 1:
+                # C14: "object_accessors": [GetMemManager]: `GetMemManager()` / `data.GetMemManager()` IS the object (it returns *this as its base)
+                try:
+                    nm, c_ = self.callee_name(n)
+                except TranslationError:
+                    return None
+                if nm in self.ctx.cfg.get('object_accessors', []):
+                    ob_ = skip_wrappers(c_['inner'][0]) if c_.get('inner') else None
+                    while ob_ is not None and ob_['kind'] == 'ImplicitCastExpr' and ob_.get('inner'):
+                        ob_ = skip_wrappers(ob_['inner'][0])
+                    if ob_ is None or ob_['kind'] == 'CXXThisExpr':
+                        return of.get('this')
+                    if ob_['kind'] == 'DeclRefExpr' and ob_['referencedDecl']['name'] in of:
+                        return of[ob_['referencedDecl']['name']]
+                return None
             break
         if n.get('kind') == 'UnaryOperator' and n.get('opcode') == '*' and skip_wrappers(n['inner'][0]).get('kind') == 'CXXThisExpr':
             return of.get('this')
@@ -303,6 +338,15 @@ class Fn:
         ov_ = self.obj_value(n) if self.ctx.cfg.get('object_fields') else None
         if ov_ is not None:
             return ov_
+        if self.ctx.cfg.get('same_object_var') and k == 'BinaryOperator' and n.get('opcode') in ('!=', '==') and len(n.get('inner', [])) == 2:
+            # C14: "same_object_var": `this != &param` / `this == &param` -> the named Gallina bool (a section variable)
+            a_, b_ = skip_wrappers(n['inner'][0]), skip_wrappers(n['inner'][1])
+            while b_['kind'] == 'ImplicitCastExpr' and b_.get('inner'): b_ = skip_wrappers(b_['inner'][0])
+            while a_['kind'] == 'ImplicitCastExpr' and a_.get('inner'): a_ = skip_wrappers(a_['inner'][0])
+            if a_['kind'] == 'CXXThisExpr' and b_['kind'] == 'UnaryOperator' and b_.get('opcode') == '&' and \
+                    skip_wrappers(b_['inner'][0]).get('kind') == 'DeclRefExpr':
+                v_ = self.ctx.cfg['same_object_var']
+                return v_ if n['opcode'] == '==' else f'(negb {v_})'
         if k == 'SubstNonTypeTemplateParmExpr':
             return self.e(n['inner'][-1])
         if k in ('ParenExpr', 'ExprWithCleanups', 'MaterializeTemporaryExpr', 'ConstantExpr',
@@ -359,6 +403,8 @@ class Fn:
             op = n['opcode']; ct = ctype(n)
             if op in ('++', '--'):
                 raise TranslationError('++/-- inside expression')
+            if op == '*' and self.ctx.cfg.get('iter_cells'):   # C16: `*iter` where the iterator is a position in the configured cell array
+                return f"({self.ctx.cfg['iter_cells']} {self.e(n['inner'][0])})"
             if op == '&':
                 # C12: address of a member listed in "address_of" -> opaque parameter addr_<member> (pointer identity only)
                 t = skip_wrappers(n['inner'][0])
@@ -393,6 +439,18 @@ class Fn:
             return self.sizeof(n)
         if k == 'CXXNullPtrLiteralExpr':
             return '(0)'
+        if k == 'CXXScalarValueInitExpr' and self.ctx.cfg.get('value_init_zero'):
+            # C15 ("value_init_zero": true): T() of a scalar / pointer type (e.g. RawIterator() of a pointer iterator) is the zero value
+            return '(0)'
+        if k in ('CXXConstructExpr', 'CXXTemporaryObjectExpr') and self.ctx.cfg.get('construct_prims'):   # C06: "construct_prims": {"<type substring>": "<prim>"}: T(args...) of an opaque class
+            ty_ = (n.get('type', {}).get('desugaredQualType') or n.get('type', {}).get('qualType', ''))
+            args_ = [x for x in n.get('inner', []) if isinstance(x, dict)]
+            if len(args_) >= 2:
+                for sub_, prim_ in self.ctx.cfg['construct_prims'].items():
+                    if sub_ in ty_:
+                        return '(' + ' '.join([prim_] + [self.e(a) for a in args_]) + ')'
+        if k == 'CXXThisExpr' and self.ctx.cfg.get('this_prim'):   # C06: `*this` handed to a constructor / primitive
+            return self.ctx.cfg['this_prim']
         if k == 'CXXConstructExpr' and len(n.get('inner', [])) == 1:
             return self.e(n['inner'][0])
         if k == 'CXXConstructExpr' and len(n.get('inner', [])) == 2 and self.ctx.cfg.get('opaque_types') \
@@ -406,6 +464,10 @@ class Fn:
             return '(0)'   # C12: `return Iterator();` of a function listed in "null_construct": the null iterator
         if k == 'CXXDefaultArgExpr':
             raise TranslationError('default argument expression')
+        if k == 'CXXScalarValueInitExpr':   # C08: `T()` of a scalar / pointer type is zero (`mValueIterator = ValueIterator();`)
+            ct8_ = ctype(n)
+            if ct8_[0] == 'bool': return 'false'
+            if ct8_[0] in ('u', 's', 'ptr'): return '(0)'
         raise TranslationError('expression kind ' + k)
 
     def sizeof(self, n):
@@ -488,6 +550,8 @@ class Fn:
         if base is not None and base['kind'] == 'MemberExpr' and not base.get('name') and nm in self.ctx.cfg.get('union_fields', []) \
                 and base.get('inner') and skip_wrappers(base['inner'][0]).get('kind') == 'CXXThisExpr':
             base = None
+        while base is not None and base['kind'] == 'MemberExpr' and not base.get('name') and base.get('inner'):
+            base = skip_wrappers(base['inner'][0])   # C14: member of an anonymous union / struct member (Array::Data::mCapacity)
         # this->field or field
         if base is None or base['kind'] == 'CXXThisExpr':
             if nm in self.ctx.fields:
@@ -540,6 +604,9 @@ class Fn:
             rid = c.get('referencedMemberDecl') or (c.get('referencedDecl') or {}).get('id')
         if rid is not None and rid in self.ctx.fninfo_id:
             return self.ctx.fninfo_id[rid]
+        ex_ = self.ctx.cfg.get('extern_calls', {}).get(nm)   # C12: see ExternFn
+        if ex_ is not None:
+            return ExternFn(self.ctx, nm, ex_)
         fi = self.ctx.fninfo.get(nm)
         if fi is not None and self.ctx.overloads.get(nm, 1) > 1 and rid is not None and fi.d.get('id') != rid:
             raise TranslationError('call to an overload of %s other than the translated one (list it with "index"/"as")' % nm)
@@ -600,6 +667,9 @@ class Fn:
                     obj_ = [self.e(c['inner'][0])]
             dfl_ = list(self.ctx.cfg.get('prim_defaults', {}).get(nm, []))   # C06: "prim_defaults": {"MakeIterator": ["0"]}: literal text for defaulted arguments; otherwise they are dropped (std::next(it))
             argt_ = []
+            argc8_ = self.ctx.cfg.get('prim_argc', {}).get(nm)   # C08: "prim_argc": {"CreateCap": 1}: only the first N arguments are modelled (the rest are unmodelled objects, e.g. a memory manager)
+            if argc8_ is not None:
+                args = args[:argc8_]
             for a in args:
                 if a.get('kind') == 'CXXDefaultArgExpr':
                     if dfl_:
@@ -713,6 +783,11 @@ class Fn:
         nn, arr = mo['n'], mo['arr']
         if meth in ('Reserve', 'Shrink'):
             return rest()
+        if meth == 'AddBackNogrowCrt' and len(margs) == 1 and self.ctx.cfg.get('iter_cells'):   # C16: AddBackNogrowCrt(Creator(memManager, value))
+            cr_ = skip_wrappers(margs[0])
+            while cr_.get('kind') in ('ImplicitCastExpr', 'CXXFunctionalCastExpr') and cr_.get('inner'): cr_ = skip_wrappers(cr_['inner'][-1])
+            if cr_.get('kind') in ('CXXConstructExpr', 'CXXTemporaryObjectExpr') and len(cr_.get('inner', [])) == 2:
+                meth = 'AddBackNogrow'; margs = [cr_['inner'][1]]
         if meth == 'AddBackNogrow' and len(margs) == 1:
             v = self.e(margs[0]); self.note_write(arr); self.note_write(nn)
             if mo.get('cap'):   # C05: the callee's MOMO_CHECK(GetCount() < GetCapacity())
@@ -1011,6 +1086,13 @@ class Fn:
                     acc.add(self.lhs_name(n['inner'][1]))
             except TranslationError:
                 pass
+        if k == 'CXXOperatorCallExpr' and self.ctx.cfg.get('opaque_types') and len(n.get('inner', [])) == 2 \
+                and 'operator++' in self.ctx.cfg.get('operator_prims', {}):   # C08: `++it;` on an opaque iterator writes it
+            try:
+                if self.callee_name(n)[0] == 'operator++':
+                    acc.add(self.lhs_name(n['inner'][1]))
+            except TranslationError:
+                pass
         if k == 'CXXMemberCallExpr' and self.ctx.cfg.get('atomic_mem'):   # C19: exchange / CAS write the memory array (and the expected local)
             try:
                 am_ = self.atomic_mem_call(n)
@@ -1049,6 +1131,25 @@ class Fn:
                     acc.add(self.ptr_range(n['inner'][3])[0])
             except TranslationError:
                 pass
+        if k in ('CXXMemberCallExpr', 'CallExpr') and (self.ctx.cfg.get('mgr_record_calls') or self.ctx.cfg.get('assign_calls') or self.ctx.cfg.get('other_objects')):
+            # C14: what the object-level call forms write
+            try:
+                nm_, c_ = self.callee_name(n)
+                if nm_ in self.ctx.cfg.get('mgr_record_calls', {}):
+                    acc.add(self.ctx.cfg['mgr_record_calls'][nm_])
+                if nm_ in self.ctx.cfg.get('assign_calls', []) and len(n['inner']) == 3:
+                    d_ = self.obj_value(n['inner'][2])
+                    if d_ is not None: acc.add(d_)
+                if k == 'CXXMemberCallExpr' and c_.get('inner') and self.ctx.cfg.get('other_objects'):
+                    ob_ = skip_wrappers(c_['inner'][0])
+                    while ob_['kind'] == 'ImplicitCastExpr' and ob_.get('inner'): ob_ = skip_wrappers(ob_['inner'][0])
+                    if ob_['kind'] == 'DeclRefExpr' and ob_['referencedDecl']['name'] in self.ctx.cfg['other_objects']:
+                        P_ = ob_['referencedDecl']['name']; fi_ = self.lookup_fn(nm_, c_)
+                        if fi_ is not None:
+                            for f in fi_.out_fields():
+                                acc.add(f[len(P_) + 1:] if f.startswith(P_ + '_') else (P_ + '_' + f if (P_ + '_' + f) in self.ctx.fields else f))
+            except TranslationError:
+                pass
         if k in ('CXXMemberCallExpr', 'CallExpr') and self.ctx.cfg.get('record_calls'):   # C07: a recorded call writes its pseudo fields
             try:
                 rc_ = self.ctx.cfg['record_calls'].get(self.callee_name(n)[0])
@@ -1079,7 +1180,7 @@ class Fn:
                 pass
         if k in ('CXXMemberCallExpr', 'CXXOperatorCallExpr') and self.memobj(n) is not None:   # C16
             mo, meth, _a = self.memobj(n)
-            if meth == 'AddBackNogrow': acc.update([mo['arr'], mo['n']])
+            if meth == 'AddBackNogrow' or (meth == 'AddBackNogrowCrt' and self.ctx.cfg.get('iter_cells')): acc.update([mo['arr'], mo['n']])   # (C16: Crt form)
             if meth in ('RemoveBack', 'Clear'): acc.add(mo['n'])
         if k == 'CallExpr' and self.ctx.cfg.get('assign_calls'):   # C05
             try:
@@ -1109,6 +1210,9 @@ class Fn:
                 fi = self.ctx.fninfo.get(nm)
                 if fi is not None:
                     acc.update(fi.writes_fields)
+                ex12_ = self.ctx.cfg.get('extern_calls', {}).get(nm)   # C12: ghost fields written by an extern call are loop state
+                if ex12_ is not None:
+                    acc.update(ex12_.get('writes', []))
             except TranslationError:
                 pass
         for c in n.get('inner', []):
@@ -1277,16 +1381,23 @@ class Fn:
         kind = s['kind']
         self._cur_jc = jc   # C18 (try_catch): the jump context of the statement being translated
         if kind == 'CXXTryStmt' and getattr(self, 'tc_cfg', None):   # C18
-            if lst[1:]:
-                raise TranslationError('try_catch: the try statement must be the last statement of the function')
             hs_ = [x for x in s['inner'][1:] if x.get('kind') == 'CXXCatchStmt']
             if len(hs_) != 1 or self.tc_handler is not None:
                 raise TranslationError('try_catch: exactly one, non-nested catch (...) handler is supported')
             hb_ = [x for x in hs_[0].get('inner', []) if isinstance(x, dict) and x.get('kind') == 'CompoundStmt']
-            if not hb_ or not hb_[0].get('inner') or skip_wrappers(hb_[0]['inner'][-1]).get('kind') != 'CXXThrowExpr':
-                raise TranslationError('try_catch: the catch block must end in `throw;`')
+            if not hb_:
+                raise TranslationError('try_catch: catch (...) { .. } expected')
+            # C18: a handler that does not end in `throw;` SWALLOWS the exception: control continues behind the try statement (k).
+            # Only supported when the throwing call is not inside a loop of the try block (the continuation is then in scope).
+            self.tc_swallow = not (hb_[0].get('inner') and skip_wrappers(hb_[0]['inner'][-1]).get('kind') == 'CXXThrowExpr')
+            def after_try_():   # the statements behind the try statement are outside the handler's reach
+                sv_ = (self.tc_handler, self.tc_env); self.tc_handler = None; self.tc_env = None
+                t_ = self.stmts(lst[1:], k, jc)
+                self.tc_handler, self.tc_env = sv_
+                return t_
+            self.tc_after = after_try_; self.tc_loop_depth = len([l_ for l_ in self.loops if l_ is None])
             self.tc_handler = hb_[0]; self.tc_env = dict(self.env)
-            txt_ = self.stmts([s['inner'][0]], k, jc)
+            txt_ = self.stmts([s['inner'][0]], after_try_, jc)
             self.tc_handler = None; self.tc_env = None
             return txt_
         if kind == 'CXXThrowExpr' and getattr(self, 'tc_cfg', None):   # C18: (re)throw = completed := false, fields as they are
@@ -1448,6 +1559,32 @@ class Fn:
                 return go(i + 1)
             if nm in self.env and nm not in self.opaque:
                 raise TranslationError(f'shadowing/redeclaration of {nm} in {self.name}')
+            lc_ = self.ctx.cfg.get('lambda_captures', {}).get(self.name, {}).get(nm)   # C12: `auto f = [.., x, ..] (..) {..};` modelled by the VALUE of its
+            if lc_ is not None:                                                      # by-copy capture x (checked: a by-copy capture of that name exists)
+                lam_ = [x_ for x_ in v.get('inner', []) if isinstance(x_, dict)]
+                def find_lam_(n_):
+                    if n_.get('kind') == 'LambdaExpr': return n_
+                    for c_ in n_.get('inner', []) or []:
+                        if isinstance(c_, dict):
+                            r_ = find_lam_(c_)
+                            if r_ is not None: return r_
+                    return None
+                le_ = next((r_ for r_ in (find_lam_(x_) for x_ in lam_) if r_ is not None), None)
+                if le_ is None: raise TranslationError('lambda_captures: %s is not initialised by a lambda' % nm)
+                rec_ = next((c_ for c_ in le_.get('inner', []) if c_.get('kind') == 'CXXRecordDecl'), {})
+                capf_ = [c_ for c_ in rec_.get('inner', []) if c_.get('kind') == 'FieldDecl']
+                caps_ = [c_ for c_ in le_.get('inner', []) if c_.get('kind') == 'DeclRefExpr' or (c_.get('kind') == 'ImplicitCastExpr')]
+                def names_(n_):
+                    out_ = []
+                    if n_.get('kind') == 'DeclRefExpr': out_.append(n_['referencedDecl']['name'])
+                    for c_ in n_.get('inner', []) or []:
+                        if isinstance(c_, dict) and c_.get('kind') != 'CompoundStmt' and c_.get('kind') != 'CXXRecordDecl': out_ += names_(c_)
+                    return out_
+                if lc_ not in [x_ for c_ in le_.get('inner', []) if c_.get('kind') not in ('CXXRecordDecl', 'CompoundStmt') for x_ in names_(c_)]:
+                    raise TranslationError('lambda_captures: the lambda %s does not capture %s' % (nm, lc_))
+                if lc_ not in self.env: raise TranslationError('lambda_captures: %s is not in scope' % lc_)
+                self.env[nm] = self.env[lc_]
+                return f'let {nm} := {lc_} in\n{go(i + 1)}'
             sl_ = self.ctx.cfg.get('struct_locals', {})   # C20: "struct_locals": {"BufferBytes": {"fields": [f1, f2], "get": [g1, g2], "pack": fn}}: a local of a small
             st_ = next((k_ for k_ in sl_ if k_ in (v.get('type', {}).get('qualType') or '')), None)   # POD struct type is flattened into scalars <local>_<field>
             if st_ is not None:
@@ -1617,7 +1754,12 @@ class Fn:
         nm, c = self.callee_name(n)
         fi = self.lookup_fn(nm, c)
         self.nonsimple = True
-        args = fi.field_args_for(self) + self.call_args(fi, n['inner'][1:])
+        if isinstance(fi, ExternFn):   # C12
+            ea_ = n['inner'][1:]
+            ob_ = [self.e(c['inner'][0])] if (fi.cfg.get('object') and c.get('kind') == 'MemberExpr') else []
+            args = fi.field_args_for(self) + ob_ + [self.e(ea_[i_]) for i_ in fi.cfg.get('args', range(len(ea_)))]
+        else:
+            args = fi.field_args_for(self) + self.call_args(fi, n['inner'][1:])
         wf = fi.out_fields()
         for f in wf:
             self.note_write(f)
@@ -1713,6 +1855,21 @@ class Fn:
                 return f"let '({', '.join(outs)}) := ({' '.join([oc['prim']] + ins)}) in\n{rest()}"
         if k == 'BinaryOperator' and s0['opcode'] == '=':
             rhs = skip_wrappers(s0['inner'][1])
+            if rhs['kind'] in ('CXXMemberCallExpr', 'CallExpr') and self.ctx.cfg.get('out_calls'):   # C12: `x = f(in.., out&..)` with "out_calls": {"f": {.., "ret": true}} -> let '(x, outs) := prim ins
+                try:
+                    onm_, _ = self.callee_name(rhs)
+                except TranslationError:
+                    onm_ = None
+                oc_ = self.ctx.cfg['out_calls'].get(onm_)
+                if oc_ is not None and oc_.get('ret'):
+                    args_ = rhs['inner'][1:]
+                    ins_ = [self.e(args_[i]) for i in oc_['ins']]
+                    outs_ = [self.lhs_name(args_[i]) for i in oc_['outs']]
+                    x_ = self.lhs_name(s0['inner'][0])
+                    for o_ in [x_] + outs_:
+                        if o_ not in self.env: raise TranslationError('out_calls: %s is not a local in scope' % o_)
+                        self.note_write(o_)
+                    return f"let '({', '.join([x_] + outs_)}) := ({' '.join([oc_['prim']] + ins_)}) in\n{rest()}"
             if rhs['kind'] in ('CXXMemberCallExpr', 'CallExpr') and getattr(self, 'fail_calls', ()):   # C20: `x = f();` where f is a "failing_calls" primitive (an allocation that may throw)
                 try:
                     rn_ = self.callee_name(rhs)[0]
@@ -1736,6 +1893,11 @@ class Fn:
             if not (comp == lt):
                 val = self.conv(val, comp, lt)
             return self.assign_to(lhs, val, rest)
+        if k == 'CStyleCastExpr' and self.ctx.cfg.get('iter_cells') and s0.get('castKind') == 'ToVoid':   # C16: `(void)++iter`
+            return self.expr_stmt(s0['inner'][0], rest)
+        if k == 'UnaryOperator' and s0['opcode'] in ('++', '--') and self.ctx.cfg.get('iter_cells') and ctype(s0)[0] == 'ptr':   # C16: ++iter on a cell position
+            v = s0['inner'][0]; a = self.e(v)
+            return self.assign_to(v, f'({a} {"+" if s0["opcode"]=="++" else "-"} 1)', rest)
         if k == 'UnaryOperator' and s0['opcode'] in ('++', '--'):
             v = s0['inner'][0]; ct = ctype(s0)
             # C14: `++obj.Accessor();` where Accessor is listed in "assert_calls" (see below): only the callee's assertion is modelled
@@ -1797,6 +1959,30 @@ class Fn:
                 while dst_.get('kind') in ('ImplicitCastExpr', 'ParenExpr') and dst_.get('inner'):
                     dst_ = skip_wrappers(dst_['inner'][0])
                 return self.assign_to(dst_, self.e(s0['inner'][1]), rest)
+            if nm in self.ctx.cfg.get('mgr_record_calls', {}) and k == 'CallExpr' and len(s0['inner']) >= 2:
+                # C14: "mgr_record_calls": {"Deallocate": ghost}: the object passed first (a manager in the sense of "object_fields") is recorded
+                # in the configured ghost field -- "the storage was returned through THIS manager"
+                g_ = self.ctx.cfg['mgr_record_calls'][nm]; v_ = self.obj_value(s0['inner'][1])
+                if v_ is None or g_ not in self.ctx.fields:
+                    raise TranslationError('record call %s: first argument is not a configured object' % nm)
+                self.note_write(g_)
+                return f'let {g_} := {v_} in\n{rest()}'
+            if k == 'CXXMemberCallExpr' and c is not None and c.get('inner') and self.ctx.cfg.get('other_objects'):
+                # C14: "other_objects": [param]: `param.f(...)` with f translated: f runs on the parameter's field set (<param>_<field>)
+                ob_ = skip_wrappers(c['inner'][0])
+                while ob_['kind'] == 'ImplicitCastExpr' and ob_.get('inner'): ob_ = skip_wrappers(ob_['inner'][0])
+                if ob_['kind'] == 'DeclRefExpr' and ob_['referencedDecl']['name'] in self.ctx.cfg['other_objects']:
+                    P_ = ob_['referencedDecl']['name']
+                    fi_ = self.lookup_fn(nm, c)
+                    if fi_ is None or fi_.nonsimple or fi_.ret_ct[0] != 'void':
+                        raise TranslationError('call of %s on object %s: not a translated straight-line void function' % (nm, P_))
+                    def sw_(f):
+                        if f.startswith(P_ + '_'): return f[len(P_) + 1:]
+                        return P_ + '_' + f if (P_ + '_' + f) in self.ctx.fields else f
+                    wf_ = [sw_(f) for f in fi_.out_fields()]
+                    for f in wf_: self.note_write(f)
+                    args_ = [sw_(f) for f in fi_.field_args_for(self)] + self.call_args(fi_, s0['inner'][1:])
+                    return f'let {self.pat(wf_)} := (' + ' '.join([fi_.out] + args_) + f') in\n{rest()}'
             if nm in self.ctx.cfg.get('assign_calls', []) and k == 'CallExpr' and len(s0['inner']) == 3:
                 # C14: "assign_calls": MemManagerProxy::Assign(src, dst) -- dst takes src's identity (PropagationModel: whichever
                 # overload / fallback is chosen); both are objects in the sense of "object_fields"
@@ -1853,6 +2039,10 @@ class Fn:
                     return f"let {ea_['field']} := (" + ' '.join([ea_['fn'], ea_['field']] + ea_['args']) + f') in\n{rest()}'
                 if nm == 'operator=' and self.ctx.cfg.get('opaque_types') and len(s0['inner']) == 3:   # C06: assignment between opaque (class-type) values
                     return self.assign_to(s0['inner'][1], self.e(s0['inner'][2]), rest)
+                if nm == 'operator++' and self.ctx.cfg.get('opaque_types') and len(s0['inner']) == 2 \
+                        and 'operator++' in self.ctx.cfg.get('operator_prims', {}):   # C08: `++it;` on an opaque iterator: it := next it
+                    opp_ = self.ctx.cfg['operator_prims']['operator++']
+                    return self.assign_to(s0['inner'][1], f'({opp_} {self.e(s0["inner"][1])})', rest)
                 raise TranslationError('operator call statement')
             if nm in self.functors and self.functors[nm] == 'skip':
                 return rest()
@@ -1888,7 +2078,12 @@ class Fn:
                     if self.tc_handler is not None:   # inside the try block: the handler runs here, in the scope of the try statement
                         saved_ = self.env; self.env = dict(self.tc_env)
                         h_, self.tc_handler = self.tc_handler, None     # a throw inside the handler propagates
-                        thrown_ = self.stmts([h_], lambda: 'Stuck', jc_)
+                        if getattr(self, 'tc_swallow', False):
+                            if len([l_ for l_ in self.loops if l_ is None]) != self.tc_loop_depth:
+                                raise TranslationError('try_catch: a swallowing handler with the throwing call inside a loop is not supported')
+                            thrown_ = self.stmts([h_], self.tc_after, jc_)
+                        else:
+                            thrown_ = self.stmts([h_], lambda: 'Stuck', jc_)
                         self.tc_handler = h_; self.env = saved_
                     else:
                         thrown_ = jc_['ret']('false')
@@ -1918,6 +2113,8 @@ class Fn:
                 if not (rid_ is not None and rid_ in self.ctx.fninfo_id):
                     return rest()
             rc_ = self.ctx.cfg.get('record_calls', {}).get(nm)
+            if rc_ is not None and getattr(self, '_rec_now', None) == id(s0):   # C09 (record_and_call): immediate re-entry for the same call, now executed
+                rc_ = None; self._rec_now = None
             if rc_ is not None:
                 # C07: call statement whose only modelled effect is to RECORD some of its arguments in configured (pseudo) scalar
                 # fields: "record_calls": {"pvSortRaws": [["sortFrom", 1], ["sortTo", 2]]} (argument indexes, 0-based)
@@ -1927,7 +2124,18 @@ class Fn:
                     if fld_ not in self.ctx.fields:
                         raise TranslationError('record_calls: %s is not a configured field' % fld_)
                     self.note_write(fld_)
+                    if ix_ == 'obj':   # C08: record the implicit object of a member call (an opaque local handle)
+                        out_ += f'let {fld_} := ({self.e(skip_wrappers(s0["inner"][0])["inner"][0])}) in\n'
+                        continue
+                    if ix_ >= len(args_) and self.ctx.cfg.get('record_missing_arg') is not None:
+                        # C11: "record_missing_arg": "<value>": an overload of the recorded NAME with fewer arguments (pvDestroy() vs
+                        # pvDestroy(Buckets*, bool)) records this constant instead
+                        out_ += f"let {fld_} := ({self.ctx.cfg['record_missing_arg']}) in\n"
+                        continue
                     out_ += f'let {fld_} := ({self.e(args_[ix_])}) in\n'
+                if self.ctx.cfg.get('record_and_call'):   # C09: the arguments are recorded in the pseudo fields AND the (translated) callee is executed
+                    self._rec_now = id(s0)
+                    return out_ + self.expr_stmt(s, rest)
                 return out_ + rest()
             if nm in ('copy', 'copy_backward') and k == 'CallExpr' and len(s0['inner']) == 4 and self.ctx.cfg.get('array_copy'):
                 # C02: std::copy(f + a, f + b, f + d) / std::copy_backward(f + a, f + b, f + dLast) inside ONE configured array field
@@ -2141,6 +2349,9 @@ class Fn:
                 fi = self.ctx.fninfo.get(nm)
                 if fi is not None and not fi.is_static:
                     acc.update(fi.fieldnames)
+                ex12_ = self.ctx.cfg.get('extern_calls', {}).get(nm)   # C12: the ghost fields an extern call reads / writes are loop context / state
+                if ex12_ is not None:
+                    acc.update(ex12_.get('reads', [])); acc.update(ex12_.get('writes', []))
                 if self.ctx.cfg.get('prim_reads_fields') and not self.ctx.cfg.get('atomic_mem'):   # C09: the same rule as C19's below without atomic_mem: a primitive
                     pr9_ = self.ctx.cfg.get('primitives', {}).get(nm)                               # whose Gallina text names a configured field reads it (loop context)
                     if pr9_:
@@ -2243,7 +2454,7 @@ class Fn:
             call = f'{lname} ({fuel_inline if fuel_inline else "fuel_of_" + self.out}) ' + ' '.join(ctxv + vs)
             if has_ret:
                 r = self.fresh('r')
-                if getattr(self, 'tc_cfg', None):   # C18: a return out of the loop keeps the loop state (the ghost fields of the handler)
+                if getattr(self, 'tc_cfg', None) or self.ctx.cfg.get('loop_return_keeps_state'):   # C18: a return out of the loop keeps the loop state (the ghost fields of the handler); C08: config-gated for member fields written in the loop before the return
                     return (f'match {call} with\n| Ok (Some {r}, {self.tup(vs) if vs else "_"}) => {jc["ret"](r)}\n'
                             f'| Ok (None, {self.tup(vs) if vs else "_"}) =>\n{rest()}\n'
                             f'| Stuck => Stuck | Fuel => Fuel | Exn => Exn\nend')
@@ -2356,6 +2567,14 @@ class Fn:
             inits_ = [x for x in self.d.get('inner', []) if x.get('kind') == 'CXXCtorInitializer']
             for ini_ in reversed(inits_):
                 fld_ = (ini_.get('anyInit') or {}).get('name')
+                if fld_ is None and ini_.get('baseInit') and self.ctx.cfg.get('base_init_field'):
+                    # C14: "base_init_field": the (manager) base class initialiser `MemManager(std::move(data.GetMemManager()))`
+                    bf_ = self.ctx.cfg['base_init_field']; v_ = self.obj_value(ini_['inner'][0])
+                    if v_ is None:
+                        raise TranslationError('base initialiser is not a configured object')
+                    self.note_write(bf_)
+                    txt = f'let {bf_} := {v_} in\n' + txt
+                    continue
                 if fld_ not in self.ctx.fields or self.ctx.fields[fld_] not in ('scalar', 'bool'):
                     raise TranslationError('constructor initialiser of %s which is not a configured scalar field' % fld_)
                 self.note_write(fld_)
@@ -2467,6 +2686,11 @@ def find_spec(objs, cfg):
         def walk_(o, inside):
             if not isinstance(o, dict): return
             here = inside or (o.get('kind') == 'ClassTemplateSpecializationDecl' and o.get('name') == cfg['nested_in'])
+            if not inside and here and cfg.get('nested_parent_regex'):
+                # C14: "nested_parent_regex": the enclosing specialization's template arguments ("int | momo::MemManagerC | ...") must match
+                ta_ = ' | '.join(a_.get('type', {}).get('qualType', str(a_.get('value', '?'))) for a_ in o.get('inner', []) if a_.get('kind') == 'TemplateArgument')
+                if not re.search(cfg['nested_parent_regex'], ta_):
+                    here = False
             if inside and o.get('kind') == 'CXXRecordDecl' and o.get('name') == cfg['class'] and \
                     any(m.get('kind') in ('CXXMethodDecl', 'FunctionTemplateDecl') for m in o.get('inner', [])):
                 specs.append(o)
